@@ -256,6 +256,10 @@ CHECKS = {
             'jump was injected, and the retry threshold is either practically infinite or no worker died and the number '
             'of timeout-inducing faults does not exceed it; otherwise any error is accepted but a silently wrong result '
             'is still a violation',
+            'retry-budget accounting: when the run ends with "Too many Timeouts: N > T", N may not exceed the '
+            'submitted generator tasks that can have timed out according to the call log (a call without an answer '
+            'in time or with an error status, an answer whose bytes mention TimeoutError, a clock jump, or a gap of '
+            'more than half the heartbeat threshold without a successfully answered call sent to that worker)',
             'a dead worker is a node partitioned for ever (its threads keep running but nothing they send arrives)',
             'bounded liveness: with a usable worker the driver must return within 1500 simulated seconds after the '
             'last fault or restart'],
